@@ -710,7 +710,8 @@ func (w *csWorld) checkCS(rec *csRec, rw *httptest.ResponseRecorder) {
 			return
 		}
 		if mustRun {
-			if rec.plan.encEmpty && v.crypt && len(rec.plain) == 0 && len(rec.q.body) > 0 {
+			// 400 is the cryption layer's answer (the signature gate answers 403): only then is it the round trip that failed
+			if rec.status == http.StatusBadRequest && rec.plan.encEmpty && v.crypt && len(rec.plain) == 0 && len(rec.q.body) > 0 {
 				w.finding("crypt-roundtrip-empty-payload", "%s: correctly signed request whose body is the AES-ECB/PKCS#7 encryption of the EMPTY payload is rejected with %d (round trip of the empty payload fails)",
 					w.describe(rec, &v), rec.status)
 				return
@@ -740,7 +741,7 @@ func (w *csWorld) finding(class, format string, a ...any) {
 func (w *csWorld) checkDelivered(rec *csRec, rw *httptest.ResponseRecorder, v *csVerdict) {
 	r := w.r
 	if rec.ran != 1 {
-		if rec.plan.encEmpty && v.crypt && len(rec.plain) == 0 && len(rec.q.body) > 0 {
+		if rec.status == http.StatusBadRequest && rec.plan.encEmpty && v.crypt && len(rec.plain) == 0 && len(rec.q.body) > 0 {
 			w.finding("crypt-roundtrip-empty-payload", "%s: correctly signed request whose body is the encryption of the EMPTY payload does not reach the handler (status %d)", w.describe(rec, v), rec.status)
 			return
 		}
